@@ -267,7 +267,11 @@ def checkC10 (p : PProject) (impl : Json) : PropOut := Id.run do
         let rejected := idg.any fun d => d.controller = c.name && d.entity = pm.m.name && d.severity = 1 && d.code ≠ "receiver-missing-security"
         if wl.isEmpty then nWl := nWl + 1 else nBad := nBad + 1
         -- annotation-level well-formedness (unknown annotation, bad status code, …) is a separate ground for rejection
-        let annotErr := (commonValidate "route" pm.m.annots).any (·.severity = 1) ||
+        -- (the declarative rules of `AnnotsWellFormed`, proved sufficient in C10Common.lean; the model's own validator must
+        -- give the same verdict)
+        if annotsWellFormedB pm.m.annots == (commonValidate "route" pm.m.annots).any (·.severity = 1) then
+          mfails := mfails ++ [s!"annots-well-formed-vs-model:{c.name}.{pm.m.name}"]
+        let annotErr := !annotsWellFormedB pm.m.annots ||
           -- an alias that is not a string is a malformed annotation, reported by the link validator as an error
           pm.m.annots.any (fun a => a.name = "Path" && aliasOf a = .bad) ||
           -- a method the generated router could not call (C09's ground for rejection, not C10's)
